@@ -68,21 +68,20 @@ inductive ROut where
   | raiseOther                             -- any other exception
   deriving DecidableEq, Repr
 
-/-! ### a small state-and-exception monad (kept explicit so that proofs can unfold it) -/
+/-! ### a small state-and-exception monad, written out (no `Monad` instance) so that proofs can unfold it -/
 
-def M (α : Type) := World → World × Res α
+abbrev M (α : Type) := World → World × Res α
 
 def M.pure {α} (a : α) : M α := fun w => (w, .ok a)
 
+/-- sequencing: an exception ends the command -/
 def M.bind {α β} (x : M α) (f : α → M β) : M β := fun w =>
   match x w with
   | (w', .ok a) => f a w'
   | (w', .raise) => (w', .raise)
   | (w', .raiseOther) => (w', .raiseOther)
 
-instance : Monad M where
-  pure := M.pure
-  bind := M.bind
+infixl:55 " >>=ₘ " => M.bind
 
 def raiseOther {α} : M α := fun w => (w, .raiseOther)
 
@@ -124,174 +123,180 @@ def ensureScript (cfg : Cfg) (sc : Script) : M (Option Script) := fun w =>
 
 /-- `get_many`: `values = await self._client.mget(*keys); if values is None: return (default,)*len(keys)` -/
 def getMany (cfg : Cfg) (ks : List String) : M (List (Option CVal)) :=
-  if ks.isEmpty then pure [] else do
-    let r ← call cfg (.mget ks)
+  if ks.isEmpty then M.pure [] else
+    call cfg (.mget ks) >>=ₘ fun r =>
     match r with
-    | .nil => pure (ks.map fun _ => none)
-    | .bulks l => pure (l.map fun b => b.bind (decode cfg))
+    | .nil => M.pure (ks.map fun _ => none)
+    | .bulks l => M.pure (l.map fun b => b.bind (decode cfg))
     | _ => raiseOther
 
 /-- `scan`: `while True: cursor, keys = await self._client.scan(cursor, match=pattern, count=batch_size); yield …; if not cursor: return` -/
 def scanLoop (cfg : Cfg) (pat : String) (count : Nat) : Nat → Nat → List String → M (List String)
-  | 0, _, acc => pure acc
-  | fuel + 1, cur, acc => do
-    let r ← call cfg (.scan cur (some pat) (some count))
+  | 0, _, acc => M.pure acc
+  | fuel + 1, cur, acc =>
+    call cfg (.scan cur (some pat) (some count)) >>=ₘ fun r =>
     match r with
     | .scan next keys =>
-      if next = 0 then pure (acc ++ keys) else scanLoop cfg pat count fuel next (acc ++ keys)
+      if next = 0 then M.pure (acc ++ keys) else scanLoop cfg pat count fuel next (acc ++ keys)
     | _ => raiseOther
+
+/-- the pairs `get_match` yields for one page: those whose value is not `_empty` -/
+def pairsOf (keys : List String) (vs : List (Option CVal)) : List (String × CVal) :=
+  (keys.zip vs).filterMap (fun kv => kv.2.map (fun v => (kv.1, v)))
 
 /-- `get_match`: scan page; `if not keys: if not cursor: return; continue`; `get_many(*keys, default=_empty)`;
 yield the pairs whose value is not `_empty`; `if not cursor: return` -/
 def getMatchLoop (cfg : Cfg) (pat : String) (count : Nat) : Nat → Nat → List (String × CVal) → M (List (String × CVal))
-  | 0, _, acc => pure acc
-  | fuel + 1, cur, acc => do
-    let r ← call cfg (.scan cur (some pat) (some count))
+  | 0, _, acc => M.pure acc
+  | fuel + 1, cur, acc =>
+    call cfg (.scan cur (some pat) (some count)) >>=ₘ fun r =>
     match r with
     | .scan next keys =>
       if keys.isEmpty then
-        (if next = 0 then pure acc else getMatchLoop cfg pat count fuel next acc)
-      else do
-        let vs ← getMany cfg keys
-        let acc' := acc ++ (keys.zip vs).filterMap (fun kv => kv.2.map (fun v => (kv.1, v)))
-        if next = 0 then pure acc' else getMatchLoop cfg pat count fuel next acc'
+        (if next = 0 then M.pure acc else getMatchLoop cfg pat count fuel next acc)
+      else
+        getMany cfg keys >>=ₘ fun vs =>
+        if next = 0 then M.pure (acc ++ pairsOf keys vs) else getMatchLoop cfg pat count fuel next (acc ++ pairsOf keys vs)
     | _ => raiseOther
 
 /-- `delete_match` with a `*`: scan page (count=100); `if not keys: if not cursor: return; continue`; unlink the page; loop -/
 def delMatchLoop (cfg : Cfg) (pat : String) : Nat → Nat → M Unit
-  | 0, _ => pure ()
-  | fuel + 1, cur => do
-    let r ← call cfg (.scan cur (some pat) (some 100))
+  | 0, _ => M.pure ()
+  | fuel + 1, cur =>
+    call cfg (.scan cur (some pat) (some 100)) >>=ₘ fun r =>
     match r with
     | .scan next keys =>
-      if keys.isEmpty then (if next = 0 then pure () else delMatchLoop cfg pat fuel next)
-      else do
-        let _ ← call cfg (.unlink keys)
+      if keys.isEmpty then (if next = 0 then M.pure () else delMatchLoop cfg pat fuel next)
+      else
+        call cfg (.unlink keys) >>=ₘ fun _ =>
         delMatchLoop cfg pat fuel next
     | _ => raiseOther
 
 def domLen : M Nat := fun w => (w, .ok w.srv.ks.dom.length)
 
+/-- the BITFIELD sub-commands of `incr_bits`: `OVERFLOW SAT` is emitted once, before the first INCRBY -/
+def incrBitsOps (idx : List Nat) (size : Nat) (by_ : Int) : List BfOp :=
+  match idx with
+  | [] => []
+  | _ => BfOp.overflow .sat :: idx.map fun i => BfOp.incrby size i by_
+
 def stepM (cfg : Cfg) : ROp → M ROut
-  | .set k v ttl c => do
+  | .set k v ttl c =>
     -- `_set = bool(await self._client.set(key, value, px=px, nx=nx, xx=xx))`
-    let r ← call cfg (.set k (encode v) (pxOf ttl) c)
-    pure (.bool (truthy r))
-  | .setMany kvs ttl => do
+    call cfg (.set k (encode v) (pxOf ttl) c) >>=ₘ fun r =>
+    M.pure (.bool (truthy r))
+  | .setMany kvs ttl =>
     -- `async with self._pipeline as pipe: for …: await pipe.set(key, value, px=px); await pipe.execute()`
-    pipe cfg (kvs.map fun kv => .set kv.1 (encode kv.2) (pxOf ttl) .always)
-    pure .none_
-  | .get k => do
-    let r ← call cfg (.get k)
+    pipe cfg (kvs.map fun kv => .set kv.1 (encode kv.2) (pxOf ttl) .always) >>=ₘ fun _ =>
+    M.pure .none_
+  | .get k =>
+    call cfg (.get k) >>=ₘ fun r =>
     match r with
-    | .nil => pure (.val none)
-    | .bulk b => pure (.val (decode cfg b))
+    | .nil => M.pure (.val none)
+    | .bulk b => M.pure (.val (decode cfg b))
     | _ => raiseOther
-  | .getMany ks => do
-    let vs ← getMany cfg ks
-    pure (.vals vs)
-  | .exists_ k => do
-    let r ← call cfg (.exists_ [k])
-    pure (.bool (truthy r))
+  | .getMany ks =>
+    getMany cfg ks >>=ₘ fun vs =>
+    M.pure (.vals vs)
+  | .exists_ k =>
+    call cfg (.exists_ [k]) >>=ₘ fun r =>
+    M.pure (.bool (truthy r))
   | .incr k by_ ttl =>
     match pxOf ttl with
-    | none => do
+    | none =>
       -- `if not expire: return await self._client.incr(key, amount=value)`
-      let r ← call cfg (.incrby k by_)
-      pure (intOrNone r)
-    | some ms => do
-      let sha ← ensureScript cfg .incrExpire
-      let r ← call cfg (.evalsha sha k [.num by_, .num ms])
-      pure (intOrNone r)
-  | .delete k => do
-    let r ← call cfg (.unlink [k])
-    pure (.bool (truthy r))
-  | .deleteMany ks => do
-    let _ ← call cfg (.unlink ks)
-    pure .none_
-  | .expire k ms => do
-    let _ ← call cfg (.pexpire k ms)
-    pure .none_
-  | .getExpire k => do
-    let r ← call cfg (.ttl k)
-    pure (intOrNone r)
-  | .clear => do
-    let _ ← call cfg .flushdb
-    pure .none_
-  | .keysCount => do
-    let r ← call cfg .dbsize
-    pure (intOrNone r)
-  | .scan pat count => do
-    let n ← domLen
-    let ks ← scanLoop cfg pat count (n + 2) 0 []
-    pure (.keys ks)
-  | .getMatch pat count => do
-    let n ← domLen
-    let kvs ← getMatchLoop cfg pat count (n + 2) 0 []
-    pure (.pairs kvs)
+      call cfg (.incrby k by_) >>=ₘ fun r =>
+      M.pure (intOrNone r)
+    | some ms =>
+      ensureScript cfg .incrExpire >>=ₘ fun sha =>
+      call cfg (.evalsha sha k [.num by_, .num ms]) >>=ₘ fun r =>
+      M.pure (intOrNone r)
+  | .delete k =>
+    call cfg (.unlink [k]) >>=ₘ fun r =>
+    M.pure (.bool (truthy r))
+  | .deleteMany ks =>
+    call cfg (.unlink ks) >>=ₘ fun _ =>
+    M.pure .none_
+  | .expire k ms =>
+    call cfg (.pexpire k ms) >>=ₘ fun _ =>
+    M.pure .none_
+  | .getExpire k =>
+    call cfg (.ttl k) >>=ₘ fun r =>
+    M.pure (intOrNone r)
+  | .clear =>
+    call cfg .flushdb >>=ₘ fun _ =>
+    M.pure .none_
+  | .keysCount =>
+    call cfg .dbsize >>=ₘ fun r =>
+    M.pure (intOrNone r)
+  | .scan pat count =>
+    domLen >>=ₘ fun n =>
+    scanLoop cfg pat count (n + 2) 0 [] >>=ₘ fun ks =>
+    M.pure (.keys ks)
+  | .getMatch pat count =>
+    domLen >>=ₘ fun n =>
+    getMatchLoop cfg pat count (n + 2) 0 [] >>=ₘ fun kvs =>
+    M.pure (.pairs kvs)
   | .deleteMatch pat =>
-    if pat.toList.contains '*' then do
-      let n ← domLen
-      delMatchLoop cfg pat (2 * n + 8) 0
-      pure .none_
-    else do
+    if pat.toList.contains '*' then
+      domLen >>=ₘ fun n =>
+      delMatchLoop cfg pat (2 * n + 8) 0 >>=ₘ fun _ =>
+      M.pure .none_
+    else
       -- `if "*" not in pattern: await self._client.unlink(pattern); return`
-      let _ ← call cfg (.unlink [pat])
-      pure .none_
-  | .setLock k tok ms => do
+      call cfg (.unlink [pat]) >>=ₘ fun _ =>
+      M.pure .none_
+  | .setLock k tok ms =>
     -- `bool(await self._client.set(key, value, px=int(expire * 1000), nx=True))`
-    let r ← call cfg (.set k tok (some ms) .nx)
-    pure (.bool (truthy r))
-  | .unlock k tok => do
-    let sha ← ensureScript cfg .unlock
-    let r ← call cfg (.evalsha sha k [tok])
-    pure (intOrNone r)
-  | .isLocked k => do
-    let r ← call cfg (.exists_ [k])
-    pure (.bool (truthy r))
+    call cfg (.set k tok (some ms) .nx) >>=ₘ fun r =>
+    M.pure (.bool (truthy r))
+  | .unlock k tok =>
+    ensureScript cfg .unlock >>=ₘ fun sha =>
+    call cfg (.evalsha sha k [tok]) >>=ₘ fun r =>
+    M.pure (intOrNone r)
+  | .isLocked k =>
+    call cfg (.exists_ [k]) >>=ₘ fun r =>
+    M.pure (.bool (truthy r))
   | .setAdd k ms ttl =>
     match ttl with
-    | none => do
+    | none =>
       -- `if expire is None: return await self._client.sadd(key, *values)`   (result not part of the interface)
-      let _ ← call cfg (.sadd k ms)
-      pure .none_
-    | some t => do
-      pipe cfg [.sadd k ms, .pexpire k t]
-      pure .none_
-  | .setRemove k ms => do
-    let _ ← call cfg (.srem k ms)
-    pure .none_
-  | .setPop k count => do
-    let r ← call cfg (.spop k count)
+      call cfg (.sadd k ms) >>=ₘ fun _ =>
+      M.pure .none_
+    | some t =>
+      pipe cfg [.sadd k ms, .pexpire k t] >>=ₘ fun _ =>
+      M.pure .none_
+  | .setRemove k ms =>
+    call cfg (.srem k ms) >>=ₘ fun _ =>
+    M.pure .none_
+  | .setPop k count =>
+    call cfg (.spop k count) >>=ₘ fun r =>
     match r with
-    | .nil => pure (.keys [])
-    | .strs l => pure (.keys l)
+    | .nil => M.pure (.keys [])
+    | .strs l => M.pure (.keys l)
     | _ => raiseOther
-  | .getBits k idx size => do
+  | .getBits k idx size =>
     -- `return tuple(await bitops.execute() or [])`
-    let r ← call cfg (.bitfield k (idx.map fun i => .get size i))
+    call cfg (.bitfield k (idx.map fun i => .get size i)) >>=ₘ fun r =>
     match r with
-    | .nil => pure (.ints [])
-    | .ints l => pure (.ints l)
+    | .nil => M.pure (.ints [])
+    | .ints l => M.pure (.ints l)
     | _ => raiseOther
-  | .incrBits k idx size by_ => do
+  | .incrBits k idx size by_ =>
     -- with the D27 repair: `return tuple(await bitops.execute() or [])`
-    let ops := match idx with
-      | [] => []
-      | _ => BfOp.overflow .sat :: idx.map fun i => BfOp.incrby size i by_
-    let r ← call cfg (.bitfield k ops)
+    call cfg (.bitfield k (incrBitsOps idx size by_)) >>=ₘ fun r =>
     match r with
-    | .nil => pure (.ints [])
-    | .ints l => pure (.ints l)
+    | .nil => M.pure (.ints [])
+    | .ints l => M.pure (.ints l)
     | _ => raiseOther
-  | .sliceIncr k start stop maxv ttl => do
+  | .sliceIncr k start stop maxv ttl =>
     -- `expire = int((expire or 0) * 1000)`
-    let sha ← ensureScript cfg .incrSlice
-    let r ← call cfg (.evalsha sha k [start, stop, .num maxv, .num ((ttl.getD 0 : Nat))])
-    pure (intOrNone r)
-  | .ping => do
-    let _ ← call cfg .ping
-    pure .pong
+    ensureScript cfg .incrSlice >>=ₘ fun sha =>
+    call cfg (.evalsha sha k [start, stop, .num maxv, .num ((ttl.getD 0 : Nat))]) >>=ₘ fun r =>
+    M.pure (intOrNone r)
+  | .ping =>
+    call cfg .ping >>=ₘ fun _ =>
+    M.pure .pong
   | .adv dt => fun w => ({ w with srv := w.srv.adv dt }, .ok .none_)
 
 def outOf : Res ROut → ROut
@@ -300,14 +305,11 @@ def outOf : Res ROut → ROut
   | .raiseOther => .raiseOther
 
 def step (cfg : Cfg) (w : World) (op : ROp) : World × ROut :=
-  let (w', r) := stepM cfg op w
-  (w', outOf r)
+  ((stepM cfg op w).1, outOf (stepM cfg op w).2)
 
 def run (cfg : Cfg) (w : World) : List ROp → World × List ROut
   | [] => (w, [])
   | op :: ops =>
-    let (w', o) := step cfg w op
-    let (w'', os) := run cfg w' ops
-    (w'', o :: os)
+    ((run cfg (step cfg w op).1 ops).1, (step cfg w op).2 :: (run cfg (step cfg w op).1 ops).2)
 
 end CashewsVerif.Redis
